@@ -58,7 +58,8 @@ PROPS = {
                 "boundary-biased random MOCs (incl. operands placed just after/before another one and degrade feeding a binary operator), 9 (quantity,width) "
                 "combinations x 6 leaf source kinds: expr_e (eager) and expr_l (lazy) against the same model value; expr_fits = the lazy tree written by the real "
                 "FITS range writer (plain and through CheckedIterator) and read back; hintok = peek_last/size_hint of EVERY subtree at creation and after 1 and 2 "
-                "next() against what it then yields; l_check / l_convert with exact hint prediction. distinct_nontrivial = distinct op lines (hintok lines and "
+                "next() against what it then yields — at creation with the EXACT contract of peek_last (hintok0: an announced last range is the end of what is yielded, and something is yielded); 9 source kinds incl. a user CellMOCIterator "
+                "advertising its size; l_check / l_convert with exact hint prediction. distinct_nontrivial = distinct op lines (hintok lines and "
                 "multi-leaf trees).",
         "explanation": "theorem lazy_eq_eager by induction over operator trees for every consistent hint configuration; per-operator hint consistency; correspondence incl. serialiser fast path",
     },
@@ -69,7 +70,7 @@ PROPS = {
             "RangeMocBuilder theorems assume non-empty pushed ranges (start < end); an empty or reversed range is outside the statement"],
         "rule": "per (quantity,width): random cell multisets (incl. first/last cell of the depth) x 5 arrival orders (sorted, reversed, shuffled, duplicated+shuffled, adjacent duplicates) "
                 "x 8 buffer capacities (1,2,3,5,8,len,len+1,default) x {push, push_v2}; append to an existing MOC; unaligned overlapping/touching/nested max-depth ranges and mixed-depth "
-                "cells x orders x capacities; n-ary or/and/xor (owned and iterator variants) for every list length 0..18 against the model's kway AND against the left fold. "
+                "cells x orders x capacities (1 list in 3 also holds two EMPTY ranges, one aligned on the builder depth and one not); every builder variant on an EMPTY list of regions at 4 depths; n-ary or/and/xor (owned and iterator variants) for every list length 0..18 against the model's kway AND against the left fold. "
                 "distinct_nontrivial = distinct op lines with more than one element.",
         "explanation": "theorems: fixed-depth builder = normalize(union of cells) for every sequence and capacity; kway = left fold for every list length via associativity from Canon.ext",
     },
@@ -81,7 +82,7 @@ PROPS = {
         "rule": "per (quantity,width): random dense/sparse cell sets over the whole-domain universe at Hpx depth 1 (48 cells: mixed depth-0/1 cells, full base cells) and "
                 "Time/Frequency depth 3 (16 cells), full and empty MOCs, boundary-biased random MOCs at all depths: cell view, cell-range view, flat cells, back to ranges, "
                 "round trips (cells, cell ranges, width through u64, NUNIQ ranges) against the identity; numbering schemes exhaustively for depths with <= 200 cells and "
-                "at first/last/middle/random indices for every depth up to MAX_DEPTH, for u16/u32/u64. distinct_nontrivial = distinct op lines with a non-empty MOC or a code.",
+                "at first/last/middle/random indices for every depth up to MAX_DEPTH, for u16/u32/u64, incl. generic uniq -> range. distinct_nontrivial = distinct op lines with a non-empty MOC or a code.",
         "explanation": "theorems: NUNIQ / z-uniq bijections and order for all depths, width round trip, one-step correctness of the greedy cell view; correspondence for the list-level views",
     },
     "C18": {
@@ -128,7 +129,8 @@ PROPS = {
                 "ST FITS v2, a 200-row multi-order map, a sky map): one header card set to a boundary value (NAXIS1/2, MOCORDER, MOCORD_*, TFORM1, ORDERING, MOCVERS, ...), one data word set to a boundary value "
                 "(NUNIQ 0..3, codes beyond the deepest depth, all ones, sign bit), truncation, a card blanked or replaced by END, random header bytes — each through from_fits_ivoa (fully consumed), "
                 "from_fits_multiordermap, from_fits_skymap and the three store loaders; giant header counts in child processes limited to 3 GB; 19 boundary text documents through the 7 text loaders of the "
-                "store (what is accepted must be usable). distinct_nontrivial = distinct op lines.",
+                "store (what is accepted must be usable); since the bug hunt: 3 synthetic sky maps + 1 pre-v2 ST-MOC among the base documents (20 card keys), a non-ASCII byte in each string card probed in child processes, depth legality of what the FITS readers return, "
+                "directed JSON (6 combos) and streaming-ASCII (9 combos) documents. distinct_nontrivial = distinct op lines.",
         "explanation": "theorems: accepted ASCII documents are valid (depth within maximum, every element inside the domain of its depth, pairwise non-overlapping, canonical result covering exactly the elements), no number leaves the index type, model reader total; mutation correspondence",
     },
     "C13": {
@@ -142,7 +144,7 @@ PROPS = {
         "rule": "ONE continuous sequential history on the process-wide store (6 000 calls quick / 80 000 thorough + 259-copy bursts + a final sweep of 80 indices): add, copy, drop, get, not, degrade, and, or, "
                 "xor, minus, multi-and/or/xor (lists with a repeated index 1 out of 3) over S/T/F values, export + re-import (FITS through the generic loader or the loader of one kind — possibly not the MOC's —, ASCII and JSON through the loader of the MOC's kind: a new entry with the same value), read-only queries (eq, is_empty, min / max / number of ranges / sum), with dead or never-allocated indices (1 in 12), mismatched kinds, empty operand lists, drain phases (slot reuse order) — every answer "
                 "(index handed out, value, error class, and the lock sections R+R-/W+W- the call took) compared with the model state kept from line to line; then 8 threads x 2.5 s (30 s thorough) of private histories on 4 shared read-only operands: "
-                "every value checked against the library result, indices pairwise distinct while live, stall watchdog (10 s), store usable afterwards. distinct_nontrivial = distinct op lines.",
+                "every value checked against the library result, indices pairwise distinct while live, stall watchdog (10 s), store usable afterwards; 1 drop in 5 is a TYPED drop (kind of the MOC or another one). distinct_nontrivial = distinct op lines.",
         "explanation": "theorems: refinement of the slab store to a reference registry for every call and history, freshness of handed-out indices, value stability, count arithmetic, two-phase atomicity, interleavings = sequential order of completion sections; correspondence on a long history + threaded run",
     },
     "C17": {
@@ -177,17 +179,20 @@ PROPS = {
         "trusted_base": COMMON_TB + ["IEEE-754: arithmetic on the generated dyadic doubles (small integers times powers of 4) is exact, so the integer model and the f64 code coincide"],
         "assumptions": COMMON_ASSUME + [
             "the mass bracket is proved on the model (selection_mass_bracket, on selectWithMass whose cells are proved to be those of selectCells, the function the correspondence ties to the code) under the hypothesis NotSameCell; it is ALSO evaluated on the implementation's output with exact integer arithmetic by the harness, like the footprint inclusion",
-            "reverse_recursive_descent_rev recursing into the non-reversed function is transliterated as is (the property does not constrain which equal-valued sub-cells are taken)"],
+            "the model follows the REPAIRED code: a target of 0 ends a descent (b3d1506), reverse_recursive_descent_rev recurses into itself (d3d6aa3)",
+            "the harness judges the implementation's output with the EXACT bound of the property: the value enclosed differs from (to - from) by LESS than the sum of the pieces really cut by a threshold (none when the threshold lies on a (sub-)cell boundary)",
+            "sky-map reader: 3 synthetic depth-1 maps (plain, one UNSEEN pixel, one NaN pixel) x skip in {0, 2} x 6 threshold pairs x 8 option combinations against the model on the kept pixels (thresholds shifted by the skipped value in ascending order only)"],
         "rule": "random multi-order maps of 0..4 disjoint cells over depths 0..2 with values in {0,1,2,3}(x4) scaled so that every /4 is exact; threshold pairs drawn from {0, total, every cumulative "
                 "sum, inside the last cell before each sum, one unit / one finest piece below each sum, random}; all 16 combinations of {asc,desc} x {strict,non-strict} x {split,no-split} x "
-                "{direct,reverse}: exact correspondence of the selected ranges + mass bracket + footprint inclusion on the implementation output. distinct_nontrivial = distinct op lines with a non-empty map.",
+                "{direct,reverse}; since the bug hunt the threshold pool also holds, in BOTH density orders, every quarter boundary and finest-piece boundary of every cell: exact correspondence of the selected ranges + mass bracket + footprint inclusion on the implementation output. distinct_nontrivial = distinct op lines with a non-empty map.",
         "explanation": "theorems: accumulation loops = maximal prefix, sub-cell loop = Euclidean division, descent total on dyadic values, enclosed value of the four descents, mass bracket of the whole selection (NotSameCell, necessity proved); correspondence + exact mass check",
     },
     "C14": {
         "needs_bins": True,
         "trusted_base": COMMON_TB + ["the real `mocset` binary is rebuilt from /repo and driven as a process; exit status, `list` stdout, file bytes and `extract` output are what is observed"],
         "assumptions": COMMON_ASSUME + ["the model is the abstract registry (ordered entries); the byte layout of the file is not modelled (byte sizes are)",
-            "an unknown identifier in chgstatus is reported by a WARNING on stderr with exit status 0 (as the code does); `report failure` is read as that warning"],
+            "an unknown identifier in chgstatus is reported by a WARNING on stderr with exit status 0 (as the code does); `report failure` is read as that warning",
+            "command-line domain (identifier <= 2^48 - 1, status in {removed, deprecated, valid}) is checked by the driver before the model is consulted: such a command is refused and leaves the file unchanged"],
         "rule": "random command histories (make, then 3..10 of append / chgstatus / purge / update-while-locked) over a population of 8 identifiers, valid and deprecated (negative) ids, MOCs of "
                 "shallow (<=13, 32-bit storage) and deep (64-bit) depths, empty MOCs, FITS inputs on 32 and 64 bits; one history out of 6 fills an n128=1 file completely (127 slots) and then "
                 "appends / changes status. After EVERY command: exit status + all `list` rows against the model; refused commands must leave the file bytes unchanged; no lock left behind; at "
@@ -201,7 +206,8 @@ PROPS = {
             "`union` (moc region in both modes, identifier lists incl. unknown ids, positions) is driven at output depths below, equal to and above the stored depths"],
         "rule": "moc-sets of 3..6 MOCs stored at depths 11..16 around a common area (32- and 64-bit storage, valid and deprecated); query regions = 1 or 2 cells at depths 12..16 anchored on the "
                 "start, the end, the middle and the last index of a stored range, shifted by -1/0/+1 cell (regions smaller than and strictly inside one depth-13 cell, touching only the first or "
-                "last cell, just outside) x {intersect, included} x {with/without deprecated} x {sequential, -p 3}; ids compared as sorted sets with the specification msQuery. "
+                "last cell, just outside) x {intersect, included} x {with/without deprecated} x {sequential, -p 3}; ids compared as sorted sets with the specification msQuery; "
+                "a directed set of two polar MOCs queried by position / union / cone at lat = +90 and -90 degrees. "
                 "distinct_nontrivial = distinct op lines.",
         "explanation": "theorems: predicates = set semantics; degrading the region to the storage depth is exact for intersection and inclusion for every region; counterexample for the original flooring",
     },
@@ -214,7 +220,7 @@ PROPS = {
         "rule": "every named point between two visible effects of append (6 points), chgstatus (1; with one identifier, and with two identifiers killed between the two stores) and purge (3) x repetitions with small and large (19 kB > BufWriter capacity) new MOCs, after a "
                 "history make + chgstatus removed: the updater is aborted at the point, then: list / extract of every listed live id / query must succeed and return the right MOCs, the listing "
                 "must be the one before or after the update, a second updater must be refused while the lock exists, and after removing the stale lock (+ tmp) a new append must succeed and every "
-                "MOC be right. All of it is direct observation of the real binary (op line = point reached). distinct_nontrivial = distinct (update, point) pairs.",
+                "MOC be right; one deterministic reader-in-progress scenario (a query blocked on an undrained pipe while an append of the 16001st MOC completes). All of it is direct observation of the real binary (op line = point reached). distinct_nontrivial = distinct (update, point) pairs.",
         "explanation": "theorems on the effect-order model of append: every prefix of the repaired order is reader-consistent with listing before|after, WF preserved, the original order is inconsistent after the meta store",
     },
     "C08": {
@@ -222,7 +228,8 @@ PROPS = {
         "assumptions": COMMON_ASSUME + ["operands have the shape the library's own builders produce (elements = consecutive blocks in time order, consecutive elements with different space MOCs)",
             "termination / absence of unreachable!() in the Rust union are OBSERVED (panic is an answer), not proved"],
         "rule": "three passes (time depth 2; depth 61 from 0; depth 61 just below the top of the time domain) of random valid ST-MOCs over 8 time cells x 4 space cells (depth 0) with 0..4 elements, independent or RELATED operands (identical time MOCs / minus first or last cell; space = same, superset, subset, incomparable, union of the two previous ones), multi-range time MOCs, equal / empty operands: the three forms of the union "
-                "(or, into_or, iterator or) in both operand orders: point-set (85 grid points incl. every shared time boundary) against the specification, validSTB on every output, depths. "
+                "(or, into_or, iterator or) in both operand orders: point-set (85 grid points incl. every shared time boundary) against the specification, validSTB on every output, depths; since the bug hunt 8 directed pairs per pass "
+                "(a depleted element must not be flushed twice, same end / different starts, operands of DIFFERENT time depths) and, for every element of every directed result, its ranges against the depth the ELEMENT announces (st_union_elem_aligned). "
                 "distinct_nontrivial = distinct op lines with a non-empty operand.",
         "explanation": "theorems on the union specification and the validity predicate; point-wise correspondence of the real operator",
     },
@@ -231,12 +238,13 @@ PROPS = {
         "assumptions": COMMON_ASSUME + ["positions enter as space cells (the hash of a position is cdshealpix's)", "the store wrappers are thin and not driven separately"],
         "rule": "three passes (time depth 2; depth 61 from 0; depth 61 near the top of the time domain) of random observation lists (0..6 (time range, cell) observations over 8 x 4 cells; four construction paths incl. the range-2D result converted by time_space_iter: overlapping and touching time ranges, simultaneous observations at different positions, first observation "
                 "not the earliest, duplicates) x buffer capacities {1,2,3,100}: both streaming builders and the range-2D path (create_from_time_ranges_spatial_coverage) against the specification on "
-                "the grid. distinct_nontrivial = distinct op lines with more than one observation.",
+                "the grid; since the bug hunt 1 list in 3 holds an EMPTY time range (aligned on a cell boundary or, below depth 61, inside a cell), 1 in 3 an observation with an EMPTY coverage, and the (time range, cell) variant of the range-2D path and "
+                "from_time_and_coos (microseconds + centre of the cell) are driven too; the exact entries are compared with Consistent2D.fromObservations on ALL the observations. distinct_nontrivial = distinct op lines with more than one observation.",
         "explanation": "theorems: specification = union of the products, order/duplicate independence, counterexample for the original make_consistent seed, and the transliterated make_consistent = union of the products + valid flat form for all entry lists; point-wise correspondence of the real paths + exact entries of the range-2D path",
     },
     "C10": {
         "trusted_base": COMMON_TB + ["point-set specification + validity predicates, AND a transliteration of Ranges2D::merge (Model/Merge2D.lean: the two cursors with parity are rendered as event lists carrying the state after each bound; the two output stacks zipped at the end as one stack of closed segments plus the open one): the rendering is validated by EXACT agreement of the entries with the real union / intersection / difference on every generated pair (op st_merge); the two folds are modelled at code level too"],
-        "assumptions": COMMON_ASSUME + ["the CLI and store entry points are compositions of the functions driven here (driven under C13/C19)"],
+        "assumptions": COMMON_ASSUME + ["the CLI and store entry points are compositions of the functions driven here (driven under C13/C19), except the store lookup filter_timepos (positions in degrees), driven here on 1 ST-MOC in 8 incl. a latitude that does not exist"],
         "rule": "random valid flat ST-MOC pairs over 8 x 4 cells (equal, empty, random): union / intersection / difference of the Ranges2D algebra against the point-wise specification + validFlatB on "
                 "every result; time fold and space fold against their specifications; lookups (flat `contains` and `RangeMOC2::contains_val`) at grid points incl. boundaries shared by consecutive "
                 "time ranges. distinct_nontrivial = distinct op lines with a non-empty operand.",
